@@ -264,13 +264,19 @@ class Hierarchy:
 
 
 class Event:
-    __slots__ = ("kind", "what", "args", "kwargs", "line", "extra", "depth", "func", "epoch", "callee", "ctx")
+    __slots__ = ("kind", "what", "args", "kwargs", "line", "extra", "depth", "func", "epoch", "callee", "ctx", "snap")
 
     def __init__(self, kind, what, args=(), kwargs=None, line=None, extra=None, depth=0, func=None, epoch=0,
                  callee=None, ctx=()):
         self.kind, self.what, self.args, self.kwargs = kind, what, tuple(args), dict(kwargs or {})
         self.line, self.extra, self.depth, self.func = line, extra, depth, func
         self.epoch, self.callee, self.ctx = epoch, callee, tuple(ctx)
+        # argument objects are references and may be edited after the call: keep their fields as they were when it was made
+        self.snap = {id(a): dict(a.fields) for a in list(self.args) + list(self.kwargs.values()) if isinstance(a, Obj)} if kind in ("call", "await") else {}
+
+    def fields_then(self, obj):
+        """fields of an argument object at the time of the call"""
+        return self.snap.get(id(obj), getattr(obj, "fields", {}))
 
     def __repr__(self):
         if self.kind in ("call", "await"):
